@@ -120,6 +120,7 @@ const c07Pkg = "github.com/krotik/ecal/parser."
 var c07Known = map[string]bool{} // goroutines already reported as leaked in this process
 
 type c07Gor struct {
+	state  string // runnable, running, chan send, select, …
 	id     string
 	frames []string // functions of package parser on its stack, innermost first
 }
@@ -140,7 +141,12 @@ func c07ParserGoroutines() []c07Gor {
 		if len(lines) == 0 || !strings.HasPrefix(lines[0], "goroutine ") {
 			continue
 		}
-		id := strings.SplitN(lines[0][len("goroutine "):], " ", 2)[0]
+		hd := strings.SplitN(lines[0][len("goroutine "):], " ", 2)
+		id := hd[0]
+		state := ""
+		if len(hd) > 1 {
+			state = strings.Trim(strings.SplitN(hd[1], ",", 2)[0], "[]:")
+		}
 		if c07Known[id] {
 			continue
 		}
@@ -155,7 +161,7 @@ func c07ParserGoroutines() []c07Gor {
 			}
 		}
 		if len(fr) > 0 {
-			res = append(res, c07Gor{id, fr})
+			res = append(res, c07Gor{state, id, fr})
 		}
 	}
 	return res
@@ -182,7 +188,8 @@ func c07LeakAtReturn(before int) (int, string) {
 		gs := c07ParserGoroutines()
 		var bad []string
 		for _, g := range gs {
-			ending := true // only (*lexer).run and/or the wrapper of its go statement: past close(), about to end
+			// only (*lexer).run and/or the wrapper of its go statement, and not blocked: past close(), about to end
+			ending := g.state == "runnable" || g.state == "running"
 			for _, fr := range g.frames {
 				if fr != "parser.(*lexer).run" && !strings.HasPrefix(fr, "parser.Lex.") { // Lex.gowrap1 / Lex.func1: wrapper of the go statement
 					ending = false
@@ -195,7 +202,7 @@ func c07LeakAtReturn(before int) (int, string) {
 		if len(gs) == 0 {
 			return 0, ""
 		}
-		if len(bad) == 0 && time.Since(t0) > 2*time.Second {
+		if len(bad) == 0 && time.Since(t0) > 60*time.Second { // (a runnable goroutine on a heavily loaded machine may wait long for a CPU)
 			bad = append(bad, "parser.(*lexer).run-does-not-end")
 		}
 		if len(bad) > 0 {
@@ -227,7 +234,7 @@ func c07Run(payload string) string {
 		select {
 		case <-done:
 			return "LEXER-OK-HERE-BUT-FAILED-IN-GENERATOR"
-		case <-time.After(5 * time.Second):
+		case <-time.After(30 * time.Second):
 			panic("HANG: parser.Parse does not return (lexer does not terminate) on this input")
 		}
 	}
@@ -524,7 +531,7 @@ func c07SafeTokens(src string) (string, bool) {
 	select {
 	case t := <-ch:
 		return t, t != ""
-	case <-time.After(10 * time.Second):
+	case <-time.After(180 * time.Second): // generous: the longest generated inputs have 10^6 tokens, the machine may be loaded
 		return "", false
 	}
 }
@@ -576,7 +583,10 @@ func c07Prepass(srcs []string) map[string]bool {
 		}
 		cmd.Wait()
 		if begun > done { // died or hung while lexing source number `begun` of this part
-			bad[srcs[from+begun]] = true
+			// believed only if it fails again ALONE with a ten times longer limit (a loaded machine can stall a child)
+			if c07ProbeAlone(exe, srcs[from+begun]) {
+				bad[srcs[from+begun]] = true
+			}
 			from += begun + 1
 		} else {
 			break
@@ -589,6 +599,15 @@ func c07Prepass(srcs []string) map[string]bool {
 func c07EmitRaw(g *Gen, payload string) {
 	c07Idx++
 	g.Emit(payload)
+}
+
+// c07ProbeAlone: does lexing this one source fail (crash / not finish within 30 s) in a child of its own?
+func c07ProbeAlone(exe, src string) bool {
+	cmd := exec.Command(exe, "C07", "-tool", "lexprobe")
+	cmd.Env = append(os.Environ(), "C07_PROBE_LIMIT=30")
+	cmd.Stdin = strings.NewReader(hx(src) + "\n")
+	out, err := cmd.Output()
+	return err != nil || !strings.Contains(string(out), "E 0")
 }
 
 func c07Emit(g *Gen, kind, src string) {
@@ -794,6 +813,10 @@ func c07Tool(args []string) int {
 		sc := bufio.NewScanner(os.Stdin)
 		sc.Buffer(make([]byte, 1<<20), 1<<28)
 		w := bufio.NewWriter(os.Stdout)
+		limit := 3 * time.Second
+		if v, err := strconv.Atoi(os.Getenv("C07_PROBE_LIMIT")); err == nil && v > 0 {
+			limit = time.Duration(v) * time.Second
+		}
 		for i := 0; sc.Scan(); i++ {
 			fmt.Fprintf(w, "B %d\n", i)
 			w.Flush()
@@ -802,7 +825,7 @@ func c07Tool(args []string) int {
 			go func() { parser.LexToList("t", src); done <- true }()
 			select {
 			case <-done:
-			case <-time.After(3 * time.Second):
+			case <-time.After(limit):
 				os.Exit(3)
 			}
 			fmt.Fprintf(w, "E %d\n", i)
